@@ -215,6 +215,10 @@ func zzMkMP(N int) *zzMP {
 		conf:           &recorder.RecorderConfig{},
 	}
 	h.mp.parseFrame = h.parse
+	// the detector has seen frames already (so that a reset has something to reset)
+	det := h.mp.motionDetector
+	det.backgroundFrames, det.count = 3, 7
+	det.flooredFrames.currentIndex, det.flooredFrames.oldest, det.flooredFrames.bufferFull = 1, 1, true
 	if !zzSymbolic() {
 		w, err := window.New("10:00", "11:00", 0, 0)
 		if err != nil {
